@@ -255,7 +255,7 @@ def before(body, a, b):
     return bb in body.reachable(ba)
 
 
-def r09_5(prog, rep, RULE=RULE):
+def r09_5(prog, rep, RULE='R09.5'):
     """"every sequence whose calls all succeeded ends in a readable archive": the reader finds the blocks of a file through the offsets of its runs, and the
     writer opens a new run whenever the block it is about to write does not follow a block of the same file. That test is `id != self.current_id`, so
     `current_id` must name the file of the block written last: on every path of a writer method to a block write, either `current_id` was just compared
